@@ -355,6 +355,10 @@ def enum_remote_object(tier):
     for how in ('none', 'known-name', 'both-names', 'explicit', 'unknown-name'):
         for replace in (False, True):
             yield {'how': how, 'replace': replace}
+            # the same through the application-facing methods of a real connection (which have defaults of their own)
+            yield {'how': how, 'replace': replace, 'via': 'connection'}
+    for replace in (False, True):
+        yield {'how': 'introspect-only', 'replace': replace, 'via': 'connection'}
 
 
 def run_remote_object(case):
@@ -367,6 +371,7 @@ def run_remote_object(case):
     from txdbus import objects as O
     saved = dict(I.DBusInterface.knownInterfaces)
     out = []
+    rig = None
     try:
         calc = I.DBusInterface('org.verif.Calc', I.Method('Add', 'ii', 'i'), I.Method('Neg', 'i', 'i'), noRegister=True)
         extra = I.DBusInterface('org.verif.Extra', I.Method('Ping', '', ''), noRegister=True)
@@ -381,14 +386,47 @@ def run_remote_object(case):
             def introspectRemoteObject(self, busName, path, replace):
                 asked.append(replace)
                 return defer.succeed(X.getInterfacesFromXML(xml, replace))
-        h = O.DBusObjectHandler(_Conn())
+        if case.get('via') == 'connection':
+            from .. import simnet as N
+            from .. import refcodec as R
+            try:
+                rig = N.ClientRig(unix=False)
+            except N.RigFailure as e:
+                return [Disc('remote.establish-failed', str(e))]
+            rig.sent_messages()
+            h = rig.conn
+        else:
+            h = O.DBusObjectHandler(_Conn())
+        res = []
+        if case['how'] == 'introspect-only':
+            # conn.introspectRemoteObject(): the definitions it returns reuse what is known unless told otherwise
+            d = (h.introspectRemoteObject('org.verif.Peer', '/calc', replaceKnownInterfaces=True) if case['replace']
+                 else h.introspectRemoteObject('org.verif.Peer', '/calc'))
+            d.addBoth(res.append)
+            sent = [m for k, m in rig.sent_messages() if k == 'msg']
+            if len(sent) == 1:
+                N.deliver(rig.conn, R.encode_message(2, 77, {5: sent[0]['serial']}, 's', [xml]))
+            rig.close_rig()
+            if len(res) != 1 or not isinstance(res[0], list):
+                return [Disc('remote.introspectRemoteObject-failed', repr(res))]
+            c = {i.name: i for i in res[0]}.get('org.verif.Calc')
+            got = getattr(c.methods.get('Add'), 'sigIn', None) if c is not None else None
+            if got != ('ii' if case['replace'] else 'i'):
+                out.append(Disc('remote.introspect-only-definition:replace=%s' % case['replace'],
+                                'introspectRemoteObject returned Calc.Add(%r)' % (got,)))
+            return out
         arg = {'none': None, 'known-name': 'org.verif.Calc', 'both-names': ['org.verif.Calc', 'org.verif.Extra'],
                'explicit': [mine], 'unknown-name': ['org.verif.Extra']}[case['how']]
-        res = []
-        if case['replace'] or case['how'] in ('none', 'explicit'):
+        if case['replace'] or (case['how'] in ('none', 'explicit') and rig is None):
             h.getRemoteObject('org.verif.Peer', '/calc', arg, replaceKnownInterfaces=case['replace']).addBoth(res.append)
         else:
             h.getRemoteObject('org.verif.Peer', '/calc', arg).addBoth(res.append)      # reuse is the documented default
+        if rig is not None:
+            sent = [m for k, m in rig.sent_messages() if k == 'msg']
+            if sent:
+                asked.append(case['replace'])
+                N.deliver(rig.conn, R.encode_message(2, 77, {5: sent[0]['serial']}, 's', [xml]))
+            rig.close_rig()
         if len(res) != 1 or not hasattr(res[0], 'interfaces'):
             return [Disc('remote.getRemoteObject-failed:%s' % case['how'], repr(res))]
         byname = {i.name: i for i in res[0].interfaces}
@@ -414,6 +452,8 @@ def run_remote_object(case):
     except Exception as e:
         out.append(Disc(exc_key(e, 'remote.exception'), exc_detail(e)))
     finally:
+        if rig is not None:
+            rig.close_rig()
         I.DBusInterface.knownInterfaces.clear()
         I.DBusInterface.knownInterfaces.update(saved)
     return out
@@ -422,7 +462,7 @@ def run_remote_object(case):
 SUBCHECKS = [
     Subcheck('roundtrip', run_case, classify, strategy=lambda tier: gen_case(tier),
              n={'quick': 300, 'thorough': 3000}),
-    Subcheck('remote_object', run_remote_object, lambda c: (True, [c['how']]), enumerate=enum_remote_object,
+    Subcheck('remote_object', run_remote_object, lambda c: (True, [c['how'], 'via_' + c.get('via', 'handler')]), enumerate=enum_remote_object,
              shards={'quick': 1, 'thorough': 1},
              exhaustive_note='getRemoteObject with interfaces given not at all / by known name / by known and unknown name / '
                              'as an object / by unknown name x replaceKnownInterfaces off and on, an out-of-date definition '
